@@ -248,8 +248,27 @@ def find_sites(facts):
                 add_owner(cb, depth + 1)
             return
         sites.setdefault(b.path, b)
+    def in_protocol(b):
+        return b.npath.startswith("protocol::") or b.npath.startswith("<protocol::") or b.loc().startswith("src/protocol/")
+
+    def add_callers_outside(b, depth=0):
+        # a conversion inside the protocol module that wraps the decoder (e.g. `impl TryFrom<[u8; 8]> for RecordHeader`) is not a
+        # dispatch site itself; parser functions that decode through it are
+        if depth > 3:
+            return
+        for (cb, cbi, t2, nm2) in F.calls_to(facts, lambda n, _p=b.npath: n == _p):
+            if cb.promoted:
+                continue
+            if in_protocol(cb):
+                add_callers_outside(cb, depth + 1)
+            else:
+                add_owner(cb)
     for (b, bi, t, name) in F.calls_to(facts, lambda n: n == FROM_BYTES):
-        if b.npath.startswith("protocol::") or b.promoted:
+        if b.promoted:
+            continue
+        if in_protocol(b):
+            if b.npath.startswith("<protocol::"):
+                add_callers_outside(b)
             continue
         add_owner(b)
     out = {}
